@@ -389,6 +389,14 @@ func DiskTempDir(prefix string) string {
 		base = filepath.Join(Root(), "build")
 	}
 	base = filepath.Join(base, "tmp")
+	for _, denied := range []string{"/etc/", "/usr/", "/bin/", "/sbin/", "/boot/", "/proc/", "/sys/", "/dev/", "/root/"} {
+		if strings.HasPrefix(base, denied) {
+			// arc refuses data directories under system roots (e.g. a snapshot of /verif
+			// under /root/.vp/runs): use the system temp directory for this run's scratch
+			base = filepath.Join(os.TempDir(), "verif-disk-tmp")
+			break
+		}
+	}
 	_ = os.MkdirAll(base, 0o755)
 	d, err := os.MkdirTemp(base, "verif-"+prefix+"-")
 	if err != nil {
